@@ -309,8 +309,9 @@ pub mod arbitrary_precision {
     {
         let n = BigDecimal::deserialize(deserializer)?;
 
-        if n.scale.abs() > SERDE_SCALE_LIMIT && SERDE_SCALE_LIMIT > 0 {
-            let msg = format!("Calculated exponent '{}' out of bounds", -n.scale);
+        // (no `abs()` and no negation in i64: both overflow for scale == i64::MIN)
+        if SERDE_SCALE_LIMIT > 0 && (n.scale > SERDE_SCALE_LIMIT || n.scale < -SERDE_SCALE_LIMIT) {
+            let msg = format!("Calculated exponent '{}' out of bounds", -(n.scale as i128));
             Err(serde::de::Error::custom(msg))
         } else {
             Ok(n)
